@@ -65,6 +65,33 @@ func ociFacts(lf *leanFile) {
 		miss("content/oci/oci.go:gcIndex manifestutil.Subject call")
 	}
 	lf.def("gcWalkAdvances", "Bool", advances)
+	// gcIndex: is the referrer pass wrapped in a loop that repeats it (a `for` statement
+	// whose body contains the range over refMap with the manifestutil.Subject walk)?
+	repeats := "false"
+	if fd := funcDecl("content/oci/oci.go", "Store", "gcIndex"); fd != nil {
+		ast.Inspect(fd.Body, func(n ast.Node) bool {
+			outer, ok := n.(*ast.ForStmt)
+			if !ok {
+				return true
+			}
+			for _, st := range outer.Body.List {
+				if rg, ok := st.(*ast.RangeStmt); ok {
+					has := false
+					ast.Inspect(rg.Body, func(m ast.Node) bool {
+						if c, ok := m.(*ast.CallExpr); ok && exprString(c.Fun) == "manifestutil.Subject" {
+							has = true
+						}
+						return true
+					})
+					if has {
+						repeats = "true"
+					}
+				}
+			}
+			return true
+		})
+	}
+	lf.def("gcRepeatsReferrerPass", "Bool", repeats)
 	// GC: is the index saved after gcIndex?
 	saves := "false"
 	if fd := funcDecl("content/oci/oci.go", "Store", "GC"); fd != nil {
